@@ -338,19 +338,29 @@ PATCH_VALUES = {
 READERS = ['amount', 'balance', 'now', 'sender', 'source']
 
 
-def gen_stackops(rng, n):
-    v = rng.randrange(1, 50)
-    return [rng.choice(['dup', 'drop', 'swap', 'pair', 'car', 'cdr', 'nil', 'add', f'push:{v}', 'some', 'none', 'unit', 'ebm'])
-            for _ in range(n)]
+def gen_stackops(rng, n, depth=2):
+    """n stack instructions; `depth` (reachable items) keeps most of them applicable, type errors stay possible"""
+    out = []
+    for _ in range(n):
+        v = rng.randrange(1, 50)
+        pool = [f'push:{v}', f'push:{v}', 'unit', 'none', 'nil', 'ebm']
+        if depth >= 1 or rng.random() < 0.15:
+            pool += ['dup', 'dup', 'drop', 'some', 'car', 'cdr']
+        if depth >= 2 or rng.random() < 0.15:
+            pool += ['swap', 'swap', 'pair', 'pair', 'add']
+        t = rng.choice(pool)
+        out.append(t)
+        depth += {'drop': -1, 'pair': -1, 'add': -1, 'some': 0, 'car': 0, 'cdr': 0, 'swap': 0}.get(t, 1)
+    return out
 
 
 def gen_deep(rng, depth):
     """DIG / DUG / DUP n / DROP n aimed at the number of reachable items: exactly at it, one beyond, inside"""
-    d = max(0, depth + rng.choice([0, 0, 0, 1, 1, -1, -1, 2, rng.randrange(-3, 4)]))
     op = rng.choice(['dig', 'dig', 'dug', 'dupn', 'dupn', 'dropn'])
-    if op == 'dupn':
-        d = max(1, d + rng.choice([0, 1]))              # DUP n reaches item n-1: n = depth + 1 leaks n - 1 protected items
-    return [f'{op}:{d}']
+    # the largest argument that still works: DIG / DUG n need n + 1 items, DUP n and DROP n need n
+    edge = depth if op in ('dupn', 'dropn') else depth - 1
+    d = edge + rng.choice([0, 0, 0, 1, 1, 1, 2, -1, -1, -2, rng.randrange(-4, 3)])   # +1: DIG / DUP n raise between protect and restore
+    return [f'{op}:{max(1 if op == "dupn" else 0, d)}']
 
 
 def gen_patch(rng):
@@ -362,7 +372,7 @@ def gen_patch(rng):
 
 def gen_dip(rng, depth, level=0):
     """a DIP around a body; the count is aimed at the reachable depth as well"""
-    n = rng.choice([1, 1, 1, 0, 2, depth, depth + 1, max(0, depth - 1)])
+    n = rng.choice([1, 1, 1, 0, 2, depth, depth, depth + 1, max(0, depth - 1), rng.randrange(0, depth + 1)])
     head = 'dip{' if n == 1 and rng.random() < 0.7 else f'dip:{n}{{'
     inner = max(0, depth - n)
     body = []
@@ -370,20 +380,32 @@ def gen_dip(rng, depth, level=0):
         r = rng.random()
         if r < 0.22 and level < 2:
             body += gen_dip(rng, inner, level + 1)
-        elif r < 0.40:
+        elif r < 0.37:
             body += gen_deep(rng, inner)
-        elif r < 0.47:
+        elif r < 0.44:
             body += rng.choice([['dropall'], ['bmd'], gen_patch(rng), [rng.choice(READERS)], ['commit'], ['begin:U:s1=1']])
         else:
-            body += gen_stackops(rng, 1)
+            ops = gen_stackops(rng, 1, inner)
+            inner = max(0, inner + {'drop': -1, 'pair': -1, 'add': -1, 'some': 0, 'car': 0, 'cdr': 0, 'swap': 0}.get(ops[0], 1))
+            body += ops
     return [head] + body + ['}']
 
 
-def gen_cell(rng, st, depth=0):
+def gen_cell(rng, st, depth=0, view=None):
     """one cell (list of tokens); `st` = the generator's own guess of the declared types (only steers the choice),
-    `depth` = number of items on the real stack before the cell"""
-    r = rng.random()
+    `depth` = number of items on the real stack before the cell, `view` = what else the live interpreter shows (is the
+    top a big map, are types / code declared): a cell whose precondition is visibly unmet is redrawn 4 times out of 5"""
+    view = view or {}
+    for _ in range(6):
+        r = rng.random()
+        unmet = ((0.08 <= r < 0.17 and not view.get('types', True)) or (0.17 <= r < 0.23 and not view.get('code', True))
+                 or (0.31 <= r < 0.47 and not view.get('top_bm', True)) or (0.47 <= r < 0.54 and depth != 1))
+        if not unmet or rng.random() < 0.2:
+            break
     k, v = rng.choice(KEYS), rng.randrange(1, 50)
+    if depth == 1 and rng.random() < 0.12:               # one item left: try to close the BEGIN … COMMIT bracket
+        return rng.choice([['nil', 'pair', 'commit'], ['nil', 'pair', 'dip:0{', 'commit', '}'], ['dup', 'bmd', 'drop', 'nil', 'pair', 'commit'],
+                           [f'push:{v}', 'some', f'push:{k}', 'update', 'nil', 'pair', 'commit']])
     if r < 0.08:
         t = rng.choice(['bm', 'bm', 'pbn', 'pbb', 'nat', 'unit'])
         p = rng.choice(['unit', 'unit', 'nat'])
@@ -425,11 +447,11 @@ def gen_cell(rng, st, depth=0):
     if r < 0.59:
         return rng.choice([['bmd'], ['dup', 'bmd'], ['dropall'], ['dup', 'bmd', 'drop']])
     if r < 0.71:                                         # DIP / DIP n / nested, possibly with something before and after
-        pre = gen_stackops(rng, rng.randrange(0, 2))
+        pre = gen_stackops(rng, rng.randrange(0, 2), depth)
         return pre + gen_dip(rng, depth + sum(t.startswith('push') or t in ('unit', 'none', 'nil', 'ebm', 'dup') for t in pre)) \
-            + gen_stackops(rng, rng.randrange(0, 2))
+            + gen_stackops(rng, rng.randrange(0, 2), depth)
     if r < 0.81:                                         # DIG / DUG / DUP n / DROP n at the edge of the stack
-        return gen_deep(rng, depth) + (gen_stackops(rng, 1) if rng.random() < 0.3 else [])
+        return gen_deep(rng, depth) + (gen_stackops(rng, 1, depth) if rng.random() < 0.3 else [])
     if r < 0.89:                                         # the execution environment
         cell = gen_patch(rng)
         if rng.random() < 0.5:
@@ -438,7 +460,7 @@ def gen_cell(rng, st, depth=0):
         return cell
     if r < 0.93:
         return [rng.choice(READERS) for _ in range(rng.randrange(1, 3))] + (['add'] if rng.random() < 0.3 else [])
-    return gen_stackops(rng, rng.randrange(1, 4))
+    return gen_stackops(rng, rng.randrange(1, 4), depth)
 
 
 FAIL_SUFFIX = [['unit', 'failwith'], ['unit', 'unit', 'add'], ['unit', 'car'], ['drop'] * 7, ['dropall', 'drop'], ['bmd', 'unit', 'failwith'],
@@ -479,7 +501,9 @@ def gen_and_run_session(rng, max_cells):
     elif rng.random() < 0.5:                             # or a few plain items to dig into
         skeleton.append([f'push:{rng.randrange(1, 9)}' for _ in range(rng.randrange(1, 4))])
     while len(session) < n:
-        cell = skeleton.pop(0) if skeleton else gen_cell(rng, st, len(interp.stack.items))
+        items, c = interp.stack.items, interp.context
+        view = {'top_bm': bool(items) and items[0].prim == 'big_map', 'types': bool(c.storage_expr and c.parameter_expr), 'code': bool(c.code_expr)}
+        cell = skeleton.pop(0) if skeleton else gen_cell(rng, st, len(items), view)
         if rng.random() < p_fail:
             cell = inject_failure(rng, cell)
         if droppable(cell):
